@@ -221,8 +221,21 @@ func (p *Pipe) Stats() (reads, writes int) {
 
 type CliConn struct {
 	P *Pipe
-	// SegmentWrites: every Write is one segment (default). Nothing else to configure.
+	// QuietRead: when no output is pending and the server is quiescent (parked in Read with
+	// nothing to read, Busy==0), Read returns ErrQuiet (a temporary timeout net.Error) instead of
+	// blocking. crypto/tls does not latch temporary errors, so a tls.Client on top can be read
+	// "until quiet" without a clock.
+	QuietRead bool
 }
+
+type quietError struct{}
+
+func (quietError) Error() string   { return "fakeconn: peer is quiescent, nothing to read" }
+func (quietError) Timeout() bool   { return true }
+func (quietError) Temporary() bool { return true }
+
+// ErrQuiet is returned by CliConn.Read in QuietRead mode.
+var ErrQuiet net.Error = quietError{}
 
 func (p *Pipe) ClientConn() *CliConn { return &CliConn{P: p} }
 
@@ -241,6 +254,9 @@ func (c *CliConn) Read(b []byte) (int, error) {
 		}
 		if p.cliEOF {
 			return 0, net.ErrClosed
+		}
+		if c.QuietRead && p.srvWaiting && len(p.toSrv) == 0 && p.Busy == 0 {
+			return 0, ErrQuiet
 		}
 		p.cond.Wait()
 	}
@@ -299,4 +315,23 @@ func (l *Listener) Dial() *Pipe {
 	}
 	l.ch <- c
 	return p
+}
+
+// WaitQuiet waits like Quiesce but does not consume output (for TLS drivers that read the
+// output through crypto/tls).
+func (p *Pipe) WaitQuiet() (closed bool, err error) {
+	deadline := time.AfterFunc(60*time.Second, func() { p.Notify() })
+	defer deadline.Stop()
+	start := time.Now()
+	p.mu.Lock()
+	defer p.mu.Unlock()
+	for {
+		if (p.srvWaiting && len(p.toSrv) == 0 && p.Busy == 0) || p.srvClosed {
+			return p.srvClosed, nil
+		}
+		if time.Since(start) > 59*time.Second {
+			return p.srvClosed, ErrWatchdog
+		}
+		p.cond.Wait()
+	}
 }
